@@ -27,6 +27,7 @@ import (
 	errorsmod "cosmossdk.io/errors"
 	"github.com/cosmos/cosmos-sdk/types/query"
 
+	orbitertypes "github.com/noble-assets/orbiter/v2/types"
 	"github.com/noble-assets/orbiter/v2/types/core"
 )
 
@@ -189,7 +190,7 @@ func (f *Forwarder) GetPaginatedPausedCrossChains(
 	protocolID core.ProtocolID,
 	pagination *query.PageRequest,
 ) ([]string, *query.PageResponse, error) {
-	counterparties, pageRes, err := query.CollectionPaginate(
+	counterparties, pageRes, err := orbitertypes.CollectionPaginate(
 		ctx,
 		f.pausedCrossChains,
 		pagination,
